@@ -773,6 +773,16 @@ fn publish_cases(rep: &mut Rep, idx: &mut u64) {
             };
             viol(rep, format!("C02/value-mismatch/pkt=PUBLISH/field={field}"), id, format!("stream item differs from the encoded PUBLISH in {field}"), &sim);
         } else {
+            // the packets behind it are accepted as well: a short PUBLISH and a PINGRESP-sized packet follow on the same connection
+            let sentinel = rc::Publish { dup: false, qos: 0, retain: false, topic: "x/sentinel".into(), id: None, props: vec![Prop::var(11, sid)], payload: vec![0xAB; 1 + n % 200] };
+            sim.feed_packet(&SPacket::Publish(sentinel.clone()));
+            sim.settle();
+            sim.drain_stream(st);
+            rep.add("follow_up_packets", 1);
+            let got = sim.streams[st].items.clone();
+            if got.len() != 2 || got[1].payload != sentinel.payload || got[1].topic != sentinel.topic || sim.run_result().is_some() {
+                viol(rep, "C02/rejected/pkt=PUBLISH/following-packet".into(), id, format!("the well-formed PUBLISH whose last byte is byte {} of the connection's inbound stream was not accepted: {} stream items, run() = {:?}", sim.reader.0.borrow().total_read, got.len(), sim.run_result()), &sim);
+            }
             rep.add("values_matched", 1);
             rep.sample(|| format!("{id}: PUBLISH q{qos} dup={dup} retain={retain} sub id {sid} props {:?} payload {} bytes -> item matches", props.iter().map(|p| rc::prop_name(p.id)).collect::<Vec<_>>(), e.payload.len()));
         }
@@ -794,6 +804,13 @@ fn publish_cases(rep: &mut Rep, idx: &mut u64) {
     }
     // payload sizes across the receive buffer steps and the remaining-length widths
     let mut sizes: Vec<usize> = (0..=2100).step_by(if rep.quick() { 3 } else { 1 }).collect();
+    // every size around the receive buffer steps also in the quick tier
+    for c in [512usize, 1024, 2048] {
+        sizes.extend(c - 50..=c + 10);
+    }
+    sizes.extend(4040..=4100);
+    sizes.sort();
+    sizes.dedup();
     sizes.extend([16_370, 16_380, 16_383, 16_384, 16_390, 65_535, 65_536]);
     if !rep.quick() {
         sizes.extend([2_097_140, 2_097_151, 2_097_152, 2_097_160]);
